@@ -801,3 +801,222 @@ Definition ex_check : bool :=
   | Fail _ _ => false
   end &&
   match recover ex_db 3 with Fail EUnrecoverable _ => true | _ => false end.
+
+(* ---------- every operation keeps the invariant (indexing off) ----------------------- *)
+
+Definition tr_of (ds : list diff) : list transition := map d_tr ds.
+
+Lemma diffs_ok_split j : forall ds l,
+  diffs_ok (sem_rev l) (len l) ds ->
+  diffs_ok (sem_rev l) (len l) (firstn j ds) /\
+  diffs_ok (sem_rev (rev (tr_of (firstn j ds)) ++ l)) (len (rev (tr_of (firstn j ds)) ++ l)) (skipn j ds).
+Proof.
+  induction j as [|j IH]; intros ds l H.
+  - simpl. auto.
+  - destruct ds as [|d r]; simpl; auto.
+    simpl in H. destruct H as [H1 [H2 [H3 H4]]].
+    assert (H4' : diffs_ok (sem_rev (d_tr d :: l)) (len (d_tr d :: l)) r).
+    { rewrite len_cons. exact H4. }
+    destruct (IH r (d_tr d :: l) H4') as [A B]. split.
+    + split; [exact H1|]. split; [exact H2|]. split; [exact H3|]. rewrite len_cons in A. exact A.
+    + rewrite <- app_assoc. simpl. exact B.
+Qed.
+
+Lemma commit_layers_ok r0 force ds : forall l st,
+  CInv r0 l st -> ix st = None -> diffs_ok (sem_rev l) (len l) ds ->
+  exists st', commit_layers st ds force = Done st' /\ CInv r0 (rev (tr_of ds) ++ l) st' /\
+              cfg st' = cfg st /\ wait_sync st' = wait_sync st /\ diffs st' = diffs st /\ ix st' = None.
+Proof.
+  induction ds as [|d r IH]; intros l st C Hix H.
+  - simpl. exists st. auto 10.
+  - simpl in H. destruct H as [H1 [H2 [H3 H4]]].
+    destruct (disk_commit_ok r0 l st d force C Hix H1 H2 H3) as [st1 [Hc [C1 [E1 [E2 [E3 E4]]]]]].
+    assert (H4' : diffs_ok (sem_rev (d_tr d :: l)) (len (d_tr d :: l)) r) by (rewrite len_cons; exact H4).
+    destruct (IH (d_tr d :: l) st1 C1 E4 H4') as [st' [Hl [C' [F1 [F2 [F3 F4]]]]]].
+    exists st'. simpl. rewrite Hc. split; [exact Hl|]. split.
+    + rewrite <- app_assoc. simpl. exact C'.
+    + rewrite F1, F2, F3, E1, E2, E3. auto.
+Qed.
+
+Lemma cinv_set_diffs r0 l st ds : CInv r0 l st -> CInv r0 l (set_diffs st ds).
+Proof. intros [[D Hh F W I] H1 H2]. constructor; [constructor|..]; simpl; auto. Qed.
+
+Lemma cap_from_ok r0 l st m k :
+  Inv r0 l st -> ix st = None ->
+  exists l' st', cap_from st m k = Done st' /\ Inv r0 l' st' /\ ix st' = None /\
+                 cfg st' = cfg st /\ wait_sync st' = wait_sync st.
+Proof.
+  intros [C Hd] Hix. unfold cap_from. destruct k as [|k].
+  - destruct (diffs_ok_split m (diffs st) l Hd) as [A _].
+    destruct (commit_layers_ok r0 true (firstn m (diffs st)) l st C Hix A)
+      as [st' [Hl [C' [F1 [F2 [F3 F4]]]]]].
+    rewrite Hl. eexists _, _. split; [reflexivity|]. split; [|simpl; auto].
+    constructor; [apply cinv_set_diffs; exact C'|simpl; exact I].
+  - destruct (Nat.leb m (S k)).
+    + exists l, st. split; [reflexivity|]. split; [constructor; assumption|auto].
+    + destruct (diffs_ok_split (m - S k) (diffs st) l Hd) as [A B].
+      destruct (commit_layers_ok r0 false (firstn (m - S k) (diffs st)) l st C Hix A)
+        as [st' [Hl [C' [F1 [F2 [F3 F4]]]]]].
+      rewrite Hl. eexists _, _. split; [reflexivity|]. split; [|simpl; auto].
+      constructor; [apply cinv_set_diffs; exact C'|simpl; exact B].
+Qed.
+
+Lemma cap_ok r0 l st root k :
+  Inv r0 l st -> ix st = None ->
+  (exists l' st', cap st root k = Done st' /\ Inv r0 l' st' /\ ix st' = None /\
+                  cfg st' = cfg st /\ wait_sync st' = wait_sync st) \/
+  (exists e, cap st root k = Fail e st).
+Proof.
+  intros I Hix. unfold cap. destruct (find_diff (diffs st) root 0) as [p|].
+  - left. apply (cap_from_ok r0 l); auto.
+  - right. destruct (disk_root (dk st) =? root); eexists; reflexivity.
+Qed.
+
+(* the state the caller builds the next transition on: the disk layer's view with the
+   diff layers applied *)
+Definition head_state (st : db) : key -> N :=
+  fold_left apply_tr (tr_of (diffs st)) (eff (dk st)).
+
+Lemma fold_apply_ext ts : forall m m' k, (forall k, m k = m' k) ->
+  fold_left apply_tr ts m k = fold_left apply_tr ts m' k.
+Proof.
+  induction ts as [|t ts IH]; intros m m' k E; simpl; auto.
+  apply IH. intro k'. apply apply_tr_ext. apply E.
+Qed.
+
+Lemma diffs_ok_snoc ds : forall m id t,
+  diffs_ok m id ds -> wf_tr (fold_left apply_tr (tr_of ds) m) t ->
+  diffs_ok m id (ds ++ [mkDiff (t_root t) (id + N.of_nat (length ds) + 1) t]).
+Proof.
+  induction ds as [|d r IH]; intros m id t H W; simpl in *.
+  - replace (id + 0 + 1) with (id + 1) by lia. auto.
+  - destruct H as [H1 [H2 [H3 H4]]]. split; [exact H1|]. split; [exact H2|]. split; [exact H3|].
+    replace (id + N.pos (Pos.of_succ_nat (length r)) + 1) with (id + 1 + N.of_nat (length r) + 1) by lia.
+    apply IH; auto.
+Qed.
+
+Lemma find_diff_snoc l : forall root n d, d_root d = root ->
+  exists p, find_diff (l ++ [d]) root n = Some p.
+Proof.
+  induction l as [|d0 r IH]; intros root n d E; simpl.
+  - rewrite E, N.eqb_refl. eauto.
+  - destruct (d_root d0 =? root); eauto.
+Qed.
+
+Inductive op := OUpdate (t : transition) | OCommit (root : N) | OCap (k : nat) | ORecover (root : N).
+
+Definition do_op (st : db) (o : op) : out :=
+  match o with
+  | OUpdate t => update st (head_root st) t
+  | OCommit r => commit st r
+  | OCap k => if wait_sync st then Fail EWaitSync st else cap st (head_root st) k
+  | ORecover r => recover st r
+  end.
+
+(* every operation, successful or refused, leads from a represented state to a
+   represented state; a refused operation leaves the database untouched *)
+Theorem op_preserves r0 l st o :
+  Inv r0 l st -> ix st = None ->
+  (forall t, o = OUpdate t -> wf_tr (head_state st) t) ->
+  (exists l' st', do_op st o = Done st' /\ Inv r0 l' st' /\ ix st' = None) \/
+  (exists e, do_op st o = Fail e st).
+Proof.
+  intros I Hix Hwf. destruct o as [t|root|k|root]; simpl.
+  - (* Update *)
+    unfold update. destruct (wait_sync st); [right; eexists; reflexivity|].
+    destruct (t_root t =? head_root st); [right; eexists; reflexivity|].
+    destruct ((disk_root (dk st) =? t_root t) ||
+              match find_diff (diffs st) (t_root t) 0 with Some _ => true | None => false end).
+    + destruct (cap_ok r0 l st (t_root t) (cfg_maxdiff (cfg st)) I Hix)
+        as [[l' [st' [H [I' [X _]]]]]|[e H]]; [left|right]; eauto.
+    + rewrite N.eqb_refl. simpl.
+      set (st1 := set_diffs st (diffs st ++ [mkDiff (t_root t) (head_id st + 1) t])).
+      assert (I1 : Inv r0 l st1).
+      { destruct I as [C Hd]. constructor; [apply cinv_set_diffs; exact C|]. simpl.
+        unfold head_id. rewrite (i_id _ _ _ (i_disk _ _ _ (i_r _ _ _ C))).
+        apply diffs_ok_snoc; [exact Hd|].
+        apply (wf_tr_ext (head_state st)); [|apply Hwf; reflexivity].
+        intro k. unfold head_state. apply fold_apply_ext.
+        apply (i_eff _ _ _ (i_disk _ _ _ (i_r _ _ _ C))). }
+      destruct (cap_ok r0 l st1 (t_root t) (cfg_maxdiff (cfg st)) I1 Hix)
+        as [[l' [st' [H [I' [X _]]]]]|[e H]].
+      * left. eauto.
+      * (* cap on the freshly added layer cannot be refused *)
+        exfalso. unfold cap in H.
+        assert (Hf : exists p, find_diff (diffs st1) (t_root t) 0 = Some p).
+        { simpl. apply find_diff_snoc. reflexivity. }
+        destruct Hf as [p Hp]. rewrite Hp in H.
+        destruct (cap_from_ok r0 l st1 (S p) (cfg_maxdiff (cfg st)) I1 Hix) as [? [? [Hc _]]].
+        rewrite Hc in H. discriminate.
+  - (* Commit *)
+    unfold commit. destruct (wait_sync st); [right; eexists; reflexivity|].
+    destruct (cap_ok r0 l st root 0 I Hix) as [[l' [st' [H [I' [X _]]]]]|[e H]]; [left|right]; eauto.
+  - (* cap *)
+    destruct (wait_sync st); [right; eexists; reflexivity|].
+    destruct (cap_ok r0 l st (head_root st) k I Hix) as [[l' [st' [H [I' [X _]]]]]|[e H]]; [left|right]; eauto.
+  - (* Recover *)
+    destruct (recoverable st root) eqn:Er.
+    + destruct (recover_exact r0 l st root I Hix Er) as [pre [l' [st' [_ [_ [_ [_ [Hr [I' _]]]]]]]]].
+      left. exists l', st'. split; [exact Hr|]. split; [exact I'|].
+      (* the indexer stays off *)
+      unfold recover in Hr. destruct (wait_sync st); [discriminate|]. rewrite Er in Hr. cbn [negb] in Hr.
+      destruct I as [[R _ _] _].
+      revert Hr. generalize (S (N.to_nat (disk_id (dk st)))). intros fuel Hr.
+      assert (Hloop : forall fuel s s', ix s = None -> recover_loop fuel s root = Done s' -> ix s' = None).
+      { clear. induction fuel as [|fuel IH]; intros s s' Hs H; simpl in H.
+        - destruct (disk_root (dk s) =? root); [injection H as <-; exact Hs|discriminate].
+        - destruct (disk_root (dk s) =? root); [injection H as <-; exact Hs|].
+          destruct (read_history (fr s) (disk_id (dk s))) as [h|]; [|discriminate].
+          unfold revert in H. rewrite Hs in H. simpl in H.
+          destruct (negb (h_root h =? disk_root (dk s))); [discriminate|].
+          destruct (disk_id (dk s) =? 0); [discriminate|].
+          destruct (revert_disk (dk s) h); [|discriminate].
+          eapply IH; [|exact H]. simpl. reflexivity. }
+      destruct (recover_loop fuel st root) as [s1|] eqn:El; [|discriminate].
+      specialize (Hloop fuel st s1 Hix El).
+      destruct (truncate_head (fr s1) (disk_id (dk s1))); [|discriminate].
+      injection Hr as <-. simpl. exact Hloop.
+    + right. destruct (not_recoverable_noop st root Er) as [e [H _]]. eauto.
+Qed.
+
+(* all histories of operations from the empty database *)
+Inductive reach (c : config) (r0 : N) : db -> Prop :=
+| reach_init : reach c r0 (init_db c r0 false)
+| reach_step st o : reach c r0 st ->
+    (forall t, o = OUpdate t -> wf_tr (head_state st) t) ->
+    reach c r0 (outcome_state (do_op st o)).
+
+Lemma init_inv c r0 : Inv r0 [] (init_db c r0 false).
+Proof.
+  assert (D : DInv r0 [] (dk (init_db c r0 false))).
+  { constructor; simpl; try reflexivity; try (unfold bl; simpl; lia);
+      try (intros ? ? []); try (intros _ k; reflexivity). }
+  constructor; [constructor; [constructor|..]|]; simpl; auto.
+  - unfold len. simpl. apply N.le_refl.
+  - split; auto. intros i H. discriminate.
+  - apply N.le_refl.
+Qed.
+
+Theorem reach_inv c r0 st : reach c r0 st -> exists l, Inv r0 l st /\ ix st = None.
+Proof.
+  induction 1 as [|st o Hr [l [I Hix]] Hwf].
+  - exists []. split; [apply init_inv|reflexivity].
+  - destruct (op_preserves r0 l st o I Hix Hwf) as [[l' [st' [H [I' X]]]]|[e H]]; rewrite H; simpl; eauto.
+Qed.
+
+(* the rollback theorem for every state reachable by any history of operations *)
+Theorem recover_exact_reach c r0 st root :
+  reach c r0 st -> recoverable st root = true ->
+  exists l0 pre l st',
+    Inv r0 l0 st /\ l0 = pre ++ l /\ pre <> [] /\ root_rev r0 l = root /\
+    ids st root = Some (len l) /\ recover st root = Done st' /\ Inv r0 l st' /\
+    (forall k, eff (dk st') k = sem_rev l k) /\
+    disk_root (dk st') = root /\ disk_id (dk st') = len l /\
+    fr_head (fr st') = len l /\ fr_tail (fr st') = fr_tail (fr st) /\
+    fr_data (fr st') = fr_data (fr st) /\ diffs st' = [].
+Proof.
+  intros Hr Hrec. destruct (reach_inv c r0 st Hr) as [l0 [I Hix]].
+  destruct (recover_exact r0 l0 st root I Hix Hrec)
+    as [pre [l [st' [A [B [C [D [E [F [G [H [J [K [L [M [_ O]]]]]]]]]]]]]]]].
+  exists l0, pre, l, st'. auto 20.
+Qed.
